@@ -1299,7 +1299,10 @@ class Compiler:
         fallback_body = self.visit(node.fallback)
         self._leave_assignment((node.name, ))
 
+        # The error records collected while the exception came up
+        # through macro calls end here.
         error_assignment = template(
+            "rcontext.pop('__error__', None)\n"
             "econtext[key] = cls(__exc, __tokens[__token][1:3])\n"
             "if handler is not None: handler(__exc)",
             cls=ErrorInfo,
